@@ -65,6 +65,20 @@ func c06Nestings() []nesting {
 			return space.M(space.N(u.Get("in", "KE")), s), space.M(space.N(u.Get("out", "KE")), t), nil
 		}},
 		simple("ustruct", func(x *space.Ty) *space.Ty { return space.St(f("F", x), f("Z", tInt)) }),
+		{"recursive-next-first", func(id string, lvl int, s, t *space.Ty) (*space.Ty, *space.Ty, []*space.Decl) {
+			ws := &space.Decl{Pkg: "in", Name: fmt.Sprintf("R%d%s", lvl, id)}
+			wt := &space.Decl{Pkg: "out", Name: fmt.Sprintf("R%d%s", lvl, id)}
+			ws.Under = space.St(f("Next", space.P(space.N(ws))), f("F", s))
+			wt.Under = space.St(f("Next", space.P(space.N(wt))), f("F", t))
+			return space.N(ws), space.N(wt), []*space.Decl{ws, wt}
+		}},
+		{"recursive-next-last", func(id string, lvl int, s, t *space.Ty) (*space.Ty, *space.Ty, []*space.Decl) {
+			ws := &space.Decl{Pkg: "in", Name: fmt.Sprintf("R%d%s", lvl, id)}
+			wt := &space.Decl{Pkg: "out", Name: fmt.Sprintf("R%d%s", lvl, id)}
+			ws.Under = space.St(f("F", s), f("Kids", space.S(space.N(ws))))
+			wt.Under = space.St(f("F", t), f("Kids", space.S(space.N(wt))))
+			return space.N(ws), space.N(wt), []*space.Decl{ws, wt}
+		}},
 		{"nstruct", func(id string, lvl int, s, t *space.Ty) (*space.Ty, *space.Ty, []*space.Decl) {
 			ws := &space.Decl{Pkg: "in", Name: fmt.Sprintf("W%d%s", lvl, id), Under: space.St(f("F", s), f("Z", tInt))}
 			wt := &space.Decl{Pkg: "out", Name: fmt.Sprintf("W%d%s", lvl, id), Under: space.St(f("F", t), f("Z", tInt))}
@@ -316,7 +330,7 @@ func pathOK(p []nesting) bool {
 	for i, n := range p {
 		if n.name == "mapkey" {
 			for _, below := range p[i+1:] {
-				if below.name == "slice" || below.name == "mapval" || below.name == "mapkey" || below.name == "mapval-enumkey" {
+				if below.name == "slice" || below.name == "mapval" || below.name == "mapkey" || below.name == "mapval-enumkey" || strings.HasPrefix(below.name, "recursive") {
 					return false
 				}
 			}
